@@ -31,9 +31,9 @@ MANIFEST = dict(
          "Approve::handle_proposed_onchain, unchecked_sign_onchain_tx and (through the Validator trait) "
          "SimpleValidator::validate_onchain_tx on generated nodes with real channels on every run; the wallet / "
          "allowlist answers come from a reference BIP32 derivation in the harness, and the property itself is "
-         "recomputed in u128 from the description of each case.  C08_feerate_estimate_is_source: the feerate estimate of the model IS the source's (estimate_feerate_per_kw translated on every run by tools/gen_rustfn.py into Gen/TxUtilGen.v and proved equal to the model's definition for every u64 fee and non-zero weight, both build profiles).",
+         "recomputed in u128 from the description of each case.  C08_feerate_estimate_is_source: the feerate estimate of the model IS the source's (estimate_feerate_per_kw translated on every run by tools/gen_rustfn.py into Gen/TxUtilGen.v and proved equal to the model's definition for every u64 fee and non-zero weight, both build profiles).  C08_beneficial_value_rule_is_source / C08_onchain_rules_are_source: the numeric rules ARE the source's - SimpleValidator::validate_beneficial_value (whole body, with DEFAULT_DEV_FLAGS read from the file) and the fee tail of ::validate_onchain_tx (from `let mut sum_inputs: u64 = 0;` to the end: checked sum of the input values, the call, Ok(non_beneficial)) are translated statement by statement on every run (Gen/OnchainGen.v) and proved equal to the model's validate_beneficial and the last two steps of validate_onchain for every policy, filter and both build profiles, value / tag / panic (the per-output loop and Node::check_onchain_tx are outside the translator's fragment).",
     design="§4 C08",
-    note=lib.TB + "Side conditions of the rate conjunct: max_feerate_per_kw < u32::MAX (u32::MAX = no maximum once the "
+    note=lib.TB + "Additionally trusted: tools/gen_rustfn.py and the meaning Base/Rust.v gives to the Rust constructs it reads.  Side conditions of the rate conjunct: max_feerate_per_kw < u32::MAX (u32::MAX = no maximum once the "
          "estimate saturates) and dev flag disable_beneficial_balance_checks off; the fee velocity theorem needs only "
          "that the fee-range tag is not downgraded and the limit is finite.  'Funds a channel' = the branch of validate_onchain_tx that counts the value as going into a "
          "channel (no wallet path, script not allowlisted); an output the wallet can spend or whose script is "
@@ -65,12 +65,27 @@ def run(res):
 
     def regen():
         tx_report.update(gen_rustfn.generate_txutil(lib.REPO))
+        stage["at"] = "onchain"
+        # Gen/OnchainGen.v (validate_beneficial_value, the fee tail of validate_onchain_tx) over the policy record of
+        # Gen/CommitmentPolicyGen.v
+        tx_report["commitment_policy"] = gen_rustfn.generate_commitment_policy(lib.REPO)["translated"]
+        tx_report["onchain"] = gen_rustfn.generate_onchain(lib.REPO)
+    stage = {"at": "txutil"}
     try:
-        lib.proof_stage(res, "C08.v", "Props.C08", PINNED + ["C08_feerate_estimate_is_source"], pre=regen)
+        lib.proof_stage(res, "C08.v", "Props.C08", PINNED + ["C08_feerate_estimate_is_source",
+                                                            "C08_beneficial_value_rule_is_source",
+                                                            "C08_onchain_rules_are_source"], pre=regen)
     except gen_rustfn.GenError as e:
-        res.violation("the translator cannot read estimate_feerate_per_kw (a construct outside its fragment): %s" % e,
-                      {"translator": "tools/gen_rustfn.py", "source": "vls-core/src/util/transaction_utils.rs",
-                       "error": str(e), "theorem": "C08_feerate_estimate_is_source"}, has_input=False)
+        if stage["at"] == "txutil":
+            res.violation("the translator cannot read estimate_feerate_per_kw (a construct outside its fragment): %s" % e,
+                          {"translator": "tools/gen_rustfn.py", "source": "vls-core/src/util/transaction_utils.rs",
+                           "error": str(e), "theorem": "C08_feerate_estimate_is_source"}, has_input=False)
+        else:
+            res.violation("the translator cannot read validate_beneficial_value or the fee tail of validate_onchain_tx, or a "
+                          "declaration or constant they use (a construct outside its fragment): %s" % e,
+                          {"translator": "tools/gen_rustfn.py", "source": "vls-core/src/policy/simple_validator.rs (+ policy/error.rs, "
+                                                                          "util/transaction_utils.rs)",
+                           "error": str(e), "theorem": "C08_onchain_rules_are_source"}, has_input=False)
     res.coverage["translated_from_source"] = tx_report
     ok, out = lib.build_coq(["theories/Model/OnchainCheck.vo"])     # the executable comparison used below
     if not ok:
